@@ -499,6 +499,10 @@ def compile(object, return_code=False):
             graph = x
             outer_block = code.get_block_for(graph)
             inner_block = code.get_block_for(graph.output)
+            if inner_block is outer_block:
+                # The output does not depend on the inputs of this graph, but the function body still needs its own block
+                inner_block = code.get_block_for(graph.inputs[0]) if len(graph.inputs) > 0 else Block()
+                code.scopeid_to_block.setdefault(id(inner_block), inner_block)
 
             output_variable = code.add_variable_for(graph)
             if graph.name is not None:
